@@ -19,7 +19,7 @@ def case(draw, tier):
     k = draw(st.integers(0, 9))
     # ElementHexC1 (64 local functions of degree 6 with third derivatives) costs ~13 s per case: in the quick tier it is
     # covered by a committed replay on two boxes instead of random generation
-    base = draw(ge.simple(kind, family=CONF_FAMILIES + NONCONF, exclude=('ElementHexC1',) if tier == 'quick' else ()))
+    base = draw(ge.simple(kind, family=CONF_FAMILIES + NONCONF, costly=tier != 'quick'))
     if k == 8 and ge.R[base['cls']]['scalar'] and not ge.R[base['cls']]['family'].startswith('global'):
         el = {'cls': 'ElementVector', 'of': base}
     elif k == 9 and not ge.R[base['cls']]['family'].startswith('global'):
